@@ -192,6 +192,14 @@ def oracle(case, rec):
                     n_nodes=n, directed=directed, node_weights=ww,
                     silence_level=3), attrs)),
     ]
+    if g["edges"] and max(max(e) for e in g["edges"]) == n - 1:
+        # documented: nodes are numbered 0..N-1 without gaps, so the list
+        # alone fixes the size when the last node has a link
+        paths.append(("edge_list_inferred_size", lambda: _set_attrs(
+            Network(edge_list=[list(e) for e in g["edges"]],
+                    directed=directed, node_weights=ww, silence_level=3),
+            attrs)))
+
     # the caller keeps its buffers and reuses them for something else once
     # the network is built: the network is the one it was built as
     def keeps_buffers():
